@@ -130,6 +130,9 @@ def lit_strs(sl):
                 d = json.loads(v)
                 if isinstance(d, dict) and "str" in d:
                     out.add(d["str"])
+                elif isinstance(d, dict) and isinstance(d.get("bytes"), list):
+                    # a byte-string constant (e.g. the encoded pieces of a format string): its printable text
+                    out.add("".join(chr(b) if 32 <= b < 127 else "\x00" for b in d["bytes"]))
             except Exception:
                 pass
     return out
